@@ -7,8 +7,9 @@
 (* stream: whoever reads it gets the oldest unread reply.                                *)
 (*   Start(c, sh, n)    caller c begins an exchange of n requests (n = 1: SendProto,     *)
 (*                      n > 1: SendBatchProto) with a short (sh) or generous deadline     *)
-(*   ServerReply(x)     the server answers the oldest unanswered request of connection x  *)
-(*   Read(c)            c reads one reply; after the n-th: Put, return                    *)
+(*   Reply(x)           the server answers the oldest unanswered request of connection x; *)
+(*                      the caller blocked on x reads it (after the n-th: Put, return)    *)
+(*   Read(c)            c reads a reply that was already waiting on its connection        *)
 (*   Timeout(c)         c's deadline passes while it waits: Discard, return an error      *)
 (* Defects: "PutOnTimeout" (the connection goes back to the pool after a read time-out)  *)
 EXTENDS Integers, Sequences, FiniteSets, TLC
@@ -81,26 +82,39 @@ Start(c, sh, n) ==
 \* the caller that is waiting for request r on connection x (if any)
 Waiter(x, r) == {c \in Callers : pc[c] = "wait" /\ cur[c] = x /\ \E i \in 1..Len(want[c]) : want[c][i] = r}
 
-\* a short-deadline caller never gets its LAST reply in time (it is the one that times out)
-ServerReply(x) ==
+\* the callers blocked in a read on connection x (at most one, see Exclusive)
+Readers(x) == {c \in Callers : pc[c] = "wait" /\ cur[c] = x}
+
+\* c takes reply r off its connection; after the last one of the exchange: Put and return
+Take(c, r) ==
+  LET x == cur[c]
+      g == Append(got[c], r)
+  IN IF Len(g) = Len(want[c])
+     THEN /\ res' = [c |-> c, want |-> want[c], got |-> g, err |-> FALSE]
+          /\ idle' = PutIdle(x) /\ open' = PutOpen(x)
+          /\ Finish(c)
+     ELSE /\ got' = [got EXCEPT ![c] = g]
+          /\ UNCHANGED <<res, idle, open, pc, ex, cur, want, short>>
+
+\* The server answers the oldest unanswered request of connection x.  A caller blocked in a read on x gets
+\* the reply in the same step (it cannot be held back from outside); otherwise the reply stays in the stream.
+\* A short-deadline caller never gets its LAST reply in time (it is the one that times out).
+Reply(x) ==
   /\ pend[x] # <<>>
   /\ LET r == Head(pend[x]) IN
-     /\ \A c \in Waiter(x, r) : short[c] => r # want[c][Len(want[c])]
-     /\ stream' = IF open[x] THEN [stream EXCEPT ![x] = Append(@, r)] ELSE stream   \* closed: the write fails
+     /\ \A c \in Readers(x) : (short[c] /\ r \in {want[c][i] : i \in 1..Len(want[c])}) => r # want[c][Len(want[c])]
+     /\ IF open[x] /\ Readers(x) # {} /\ stream[x] = <<>>
+        THEN /\ Take(CHOOSE c \in Readers(x) : TRUE, r) /\ UNCHANGED stream
+        ELSE /\ stream' = IF open[x] THEN [stream EXCEPT ![x] = Append(@, r)] ELSE stream   \* closed: the write fails
+             /\ UNCHANGED <<idle, open, pc, ex, cur, short, want, got, res>>
   /\ pend' = [pend EXCEPT ![x] = Tail(@)]
-  /\ UNCHANGED <<idle, nconn, open, pc, ex, cur, short, want, got, res, nshort>>
+  /\ UNCHANGED <<nconn, nshort>>
 
+\* c finds an unread reply on its connection (only possible when a connection was pooled uncleanly)
 Read(c) ==
   /\ pc[c] = "wait" /\ stream[cur[c]] # <<>>
-  /\ LET x == cur[c]
-         g == Append(got[c], Head(stream[x]))
-     IN /\ stream' = [stream EXCEPT ![x] = Tail(@)]
-        /\ IF Len(g) = Len(want[c])
-           THEN /\ res' = [c |-> c, want |-> want[c], got |-> g, err |-> FALSE]
-                /\ idle' = PutIdle(x) /\ open' = PutOpen(x)
-                /\ Finish(c)
-           ELSE /\ got' = [got EXCEPT ![c] = g]
-                /\ UNCHANGED <<res, idle, open, pc, ex, cur, want, short>>
+  /\ stream' = [stream EXCEPT ![cur[c]] = Tail(@)]
+  /\ Take(c, Head(stream[cur[c]]))
   /\ UNCHANGED <<nconn, pend, nshort>>
 
 Timeout(c) ==
@@ -115,7 +129,7 @@ Timeout(c) ==
 
 Next == \/ \E c \in Callers : \/ \E sh \in BOOLEAN, n \in Batch : Start(c, sh, n)
                               \/ Read(c) \/ Timeout(c)
-        \/ \E x \in Conns : ServerReply(x)
+        \/ \E x \in Conns : Reply(x)
 
 Spec == Init /\ [][Next]_vars
 
